@@ -48,6 +48,29 @@ REQUIRED_COMMIT_KEYS = frozenset(
 )
 
 
+def _deepcopy_array(a):
+    """Deep copy of an array that holds references.
+
+    ``copy.deepcopy`` of an array leaves the references inside a sub-array
+    field of a record dtype shared with the original, so the fields are
+    walked here and every reference is copied.
+    """
+    out = a.copy(order="K")
+    memo = {}
+
+    def walk(view):
+        if view.dtype.names:
+            for name in view.dtype.names:
+                if view.dtype[name].hasobject:
+                    walk(view[name])
+        else:
+            for idx in np.ndindex(view.shape):
+                view[idx] = copy.deepcopy(view[idx], memo)
+
+    walk(out)
+    return out
+
+
 class StateManager:
     """
     Unified state management for particle sampling operations.
@@ -314,7 +337,7 @@ class StateManager:
             else:
                 out = np.array(self._history[key])
             # concatenating object arrays copies references only
-            return copy.deepcopy(out) if out.dtype.hasobject else out
+            return _deepcopy_array(out) if out.dtype.hasobject else out
         else:
             if index >= len(self._history[key]) or index < 0:
                 raise IndexError(f"Index {index} out of range for history key '{key}'")
@@ -683,7 +706,7 @@ class StateManager:
             return None
         if isinstance(value, np.ndarray):
             # an object array holds references: copy what it refers to as well
-            return copy.deepcopy(value) if value.dtype.hasobject else value.copy()
+            return _deepcopy_array(value) if value.dtype.hasobject else value.copy()
         if isinstance(value, (list, tuple, dict)):
             return copy.deepcopy(value)
         return value
